@@ -115,7 +115,7 @@ class C07(Profile):
                                  rich=[k for k in rich if rng.random() < 0.6],
                                  common=[k for k in common if rng.random() < 0.6 and k != 'object_marking_refs'],
                                  xsib=rng.random() < 0.35, init_om=rng.sample(C.MARKING_IDS, rng.choice([0, 0, 1, 2])),
-                                 init_gm=rng.random() < 0.3))
+                                 init_gm=rng.random() < 0.4))
         cfg = {'rels': rng.sample(C05.REL_NAMES, rng.randrange(3, len(C05.REL_NAMES) + 1))}
         kinds = U.swarm_weights(rng, MUTATIONS + QUERIES + ['meta'], keep=0.85, must=('add', 'get'))
         ops = []
@@ -168,7 +168,12 @@ class C07(Profile):
         if sd.get('init_om'):
             d['object_marking_refs'] = list(sd['init_om'])
         if sd.get('init_gm'):
-            d['granular_markings'] = [{'marking_ref': C.TLP['red'], 'selectors': ['created', 'type']}]
+            # deliberately not in the library's own normal form: repeated pair, unsorted selectors, two entries for one marking
+            d['granular_markings'] = [{'marking_ref': C.TLP['red'], 'selectors': ['type', 'created']},
+                                      {'marking_ref': C.TLP['red'], 'selectors': ['created']},
+                                      {'marking_ref': C.STATEMENT_MARKINGS[1], 'selectors': ['id', 'type']}]
+            if ver == '2.1' or form == 'dict':
+                d['granular_markings'].append({'lang': 'fr', 'selectors': ['type']})
         if form == 'obj':
             o = call(stix2.parse, d, allow_custom=True)
             return o.value if o.ok else None
